@@ -243,6 +243,27 @@ fn variables_used(ast: &Value, out: &mut Vec<String>, only_in_objects: bool) {
     }
 }
 
+/// Does any argument list of the (linked) reader AST hold a variable inside an object value?
+pub fn has_variable_inside_object(ast: &Value) -> bool {
+    fn in_args(a: &Value, inside: bool) -> bool {
+        a.as_array().is_some_and(|l| {
+            l.iter().any(|pair| {
+                let v = &pair[1];
+                (inside && v["kind"] == "Variable") || (v["kind"] == "Object" && in_args(&v["value"], true))
+            })
+        })
+    }
+    ast.as_array().is_some_and(|nodes| {
+        nodes.iter().any(|n| {
+            in_args(&n["arguments"], false)
+                || in_args(&n["queryArguments"], false)
+                || has_variable_inside_object(&n["selections"])
+                || has_variable_inside_object(&n["condition"]["readerAst"])
+                || has_variable_inside_object(&n["readerArtifact"]["readerAst"])
+        })
+    })
+}
+
 pub fn reader_stats(ast: &Value) -> ReaderStats {
     fn args_have_variable(a: &Value) -> bool {
         a.as_array().is_some_and(|l| {
